@@ -10,7 +10,35 @@ func genGrammar(r *proto.Rand, stopFatal bool) *prog {
 	p := &prog{}
 	nextVal := 1
 	val := func() int { nextVal++; return nextVal - 1 }
+	pv := func() int { // a panic value: sometimes a run-time error of the interpreted code
+		if r.Intn(7) == 0 {
+			return errBase + 1 + r.Intn(3)
+		}
+		return val()
+	}
+	// wrap: sometimes the function is reached through a one-call function (written h.Call(f)),
 	var mk func(depth int, deferred bool) int
+	child := func(depth int, deferred bool) int {
+		if r.Intn(3) == 0 && len(p.Funcs) < 9 {
+			w := len(p.Funcs)
+			p.Funcs = append(p.Funcs, nil)
+			p.Funcs[w] = []instr{{opCall, mk(depth, r.Intn(3) == 0)}}
+			return w
+		}
+		if r.Intn(8) == 0 { // a leaf that only panics / prints / does nothing (written h.Panic(v), h.Print(x), h.Nop())
+			w := len(p.Funcs)
+			switch r.Intn(3) {
+			case 0:
+				p.Funcs = append(p.Funcs, []instr{{opPanic, val()}})
+			case 1:
+				p.Funcs = append(p.Funcs, []instr{{opPrint, val()}})
+			default:
+				p.Funcs = append(p.Funcs, []instr{})
+			}
+			return w
+		}
+		return mk(depth, deferred)
+	}
 	mk = func(depth int, deferred bool) int {
 		idx := len(p.Funcs)
 		p.Funcs = append(p.Funcs, nil)
@@ -41,18 +69,18 @@ func genGrammar(r *proto.Rand, stopFatal bool) *prog {
 				case r.Intn(10) == 0:
 					add(opDeferRec, 0)
 				default:
-					f := mk(depth+1, true)
+					f := child(depth+1, true)
 					made = append(made, f)
 					add(opDefer, f)
 				}
 			}
 			if r.Intn(5) < 2 && len(p.Funcs) < 9 {
-				add(opCall, mk(depth+1, false))
+				add(opCall, child(depth+1, false))
 			}
 		}
 		switch x := r.Intn(20); {
 		case x < 11:
-			add(opPanic, val())
+			add(opPanic, pv())
 		case x < 13:
 			add(opRecover, 0)
 		case x < 14:
@@ -73,9 +101,14 @@ func genGrammar(r *proto.Rand, stopFatal bool) *prog {
 	for i := range p.Native {
 		p.Native[i] = r.Intn(6) == 0
 	}
-	for i := 1; i < n; i++ {
-		p.Style[i] = r.Intn(3)
+	for i, f := range p.Funcs { // a function referring to a lower index cannot happen: children are made later
+		for _, in := range f {
+			if (in.Op == opCall || in.Op == opDefer) && in.Arg <= i {
+				panic("generator: reference is not forward")
+			}
+		}
 	}
+	p.setStyles(r)
 	return p
 }
 
@@ -111,6 +144,53 @@ func exhaustivePrograms() []*prog {
 		return false
 	}
 	var out []*prog
+	number := func(bodies [][]instr) *prog { // every panic site gets its own value
+		p := &prog{Style: make([]int, len(bodies))}
+		v := 1
+		for _, body := range bodies {
+			nb := make([]instr, len(body))
+			for i, in := range body {
+				if in.Op == opPanic && in.Arg == 0 {
+					in.Arg = v
+					v++
+				}
+				nb[i] = in
+			}
+			p.Funcs = append(p.Funcs, nb)
+		}
+		return p
+	}
+	// natives in every position: f1 is the native h.Call(f2) (called or deferred directly by main),
+	// f2 ≤ 2 over {panic, run-time error, recover, Stop, Fatal} raising at most one panic
+	mainsN := seqs([]instr{{opDefer, 1}, {opCall, 1}, {opDefer, 2}, {opPanic, 0}, {opRecover, 0}}, 3)
+	f2sN := seqs([]instr{{opPanic, 0}, {opPanic, errBase + 1}, {opRecover, 0}, {opStop, 1}, {opFatal, 7}}, 2)
+	for _, m := range mainsN {
+		if len(m) < 2 || !refs(m, 1) {
+			continue
+		}
+		for _, b := range f2sN {
+			p := number([][]instr{m, {{opCall, 2}}, b})
+			if p.maxPanics(2) > 1 {
+				continue
+			}
+			p.Style[1] = styleNative
+			out = append(out, p)
+		}
+	}
+	// … and f1 the native h.Panic(v), f2 ≤ 2 over {panic, recover, re-panic}
+	for _, m := range mains {
+		if len(m) < 2 || !refs(m, 1) {
+			continue
+		}
+		for _, b := range f2s {
+			if !refs(m, 2) && len(b) > 0 {
+				continue
+			}
+			p := number([][]instr{m, {{opPanic, 0}}, b})
+			p.Style[1] = styleNative
+			out = append(out, p)
+		}
+	}
 	for _, m := range mains {
 		if len(m) < 2 {
 			continue
